@@ -19,7 +19,7 @@ THEOREMS = [P + n for n in ("pick_perm", "pick_sorted", "pick_sublist", "sect_pu
            ["Rspirv.Props.RoundTrip." + n for n in ("insts_asm", "assemble_load", "parse_header_form", "C01_reload_bytes",
                                                     "grammarStreamB_sound")] + ["Rspirv.Props.C01End.C01_reload_scope"] + \
            ["Rspirv.Props.C01Layout." + n for n in ("asm_len", "insts_stream", "C01_reload_layout")] + \
-           ["Rspirv.Props.C01Full." + n for n in ("insts_chunks", "reencode", "Chunks.length", "Chunks.reencode", "C01_full")] + \
+           ["Rspirv.Props.C01Full." + n for n in ("insts_chunks", "reencode", "Chunks.length", "Chunks.reencode", "C01_full", "C01_reload_full")] + \
            ["Rspirv.Props.C01End.C01_full_inst"]
 NEEDS = ("header", "core", "glsl", "opencl", "traversals", "decode", "operand_enum", "asm_arms", "parse_operand", "operands",
          "operand_reflect", "disas_operand")
